@@ -367,3 +367,74 @@ def calls_in_all(node):
     """Every Call under `node`, nested functions included."""
     import ast as _ast
     return [n for n in _ast.walk(node) if isinstance(n, _ast.Call)]
+
+
+def guard_truth_table(guards):
+    """guards: [(expr, polarity)] - the conjunction under which a statement runs.
+    Returns (atoms, table): atoms is the sorted list of leaf propositions (text),
+    table maps a tuple of booleans (one per atom) to the truth of the conjunction.
+    Leaves: `a in b` (`not in` is its negation), `a is None` (`is not`: negation),
+    `a == b` (`!=`: negation), `a < b` (`>=` flipped...: kept as written), any other
+    expression by its truthiness.  `and`/`or`/`not`/conditional expressions are
+    evaluated.  The spelling of the test (nesting, De Morgan, early exits that the
+    CFG turned into negated guards) therefore does not matter."""
+    import ast as _ast
+    import itertools as _it
+    from .pyrepo import norm_stmt
+
+    guards = [(e, p) for e, p in guards if p is True or p is False]   # not loop/iter edges
+    atoms = set()
+
+    def leaf(e):
+        if isinstance(e, _ast.Compare) and len(e.ops) == 1:
+            l, r = norm_stmt(e.left), norm_stmt(e.comparators[0])
+            op = e.ops[0]
+            if isinstance(op, (_ast.In, _ast.NotIn)):
+                return f"{l} in {r}", isinstance(op, _ast.NotIn)
+            if isinstance(op, (_ast.Is, _ast.IsNot)):
+                return f"{l} is {r}", isinstance(op, _ast.IsNot)
+            if isinstance(op, (_ast.Eq, _ast.NotEq)):
+                a, b = sorted((l, r))
+                return f"{a} == {b}", isinstance(op, _ast.NotEq)
+            if isinstance(op, (_ast.Lt, _ast.GtE)):
+                return f"{l} < {r}", isinstance(op, _ast.GtE)
+            if isinstance(op, (_ast.Gt, _ast.LtE)):
+                return f"{r} < {l}", isinstance(op, _ast.LtE)
+        return norm_stmt(e), False
+
+    def collect(e):
+        if isinstance(e, _ast.BoolOp):
+            for v in e.values:
+                collect(v)
+        elif isinstance(e, _ast.UnaryOp) and isinstance(e.op, _ast.Not):
+            collect(e.operand)
+        elif isinstance(e, _ast.IfExp):
+            collect(e.test), collect(e.body), collect(e.orelse)
+        elif isinstance(e, _ast.Constant):
+            pass
+        else:
+            atoms.add(leaf(e)[0])
+
+    def ev(e, env):
+        if isinstance(e, _ast.BoolOp):
+            vals = [ev(v, env) for v in e.values]
+            return all(vals) if isinstance(e.op, _ast.And) else any(vals)
+        if isinstance(e, _ast.UnaryOp) and isinstance(e.op, _ast.Not):
+            return not ev(e.operand, env)
+        if isinstance(e, _ast.IfExp):
+            return ev(e.body, env) if ev(e.test, env) else ev(e.orelse, env)
+        if isinstance(e, _ast.Constant):
+            return bool(e.value)
+        a, neg = leaf(e)
+        return env[a] != neg
+
+    for e, _ in guards:
+        collect(e)
+    names = sorted(atoms)
+    table = {}
+    if len(names) > 12:
+        return names, None
+    for vals in _it.product((False, True), repeat=len(names)):
+        env = dict(zip(names, vals))
+        table[vals] = all(ev(e, env) == bool(pol) for e, pol in guards)
+    return names, table
